@@ -823,9 +823,9 @@ pub(crate) fn check_if_response_is_matched(
             return Err(StatusCode::MalformedProtocolMessage.with_context(errmsg));
         }
 
-        // When there are more than n last headers, they should start with the first block
-        // whose total difficulty reaches the difficulty boundary.
-        if last_n_count > last_n_blocks {
+        // The last n headers should not start after the first block whose total difficulty
+        // reaches the difficulty boundary.
+        {
             let first_last_n_header = &headers[reorg_count + sampled_count];
             let difficulty_boundary: U256 = prev_request.difficulty_boundary().unpack();
             let total_difficulty_before_last_n = first_last_n_header
